@@ -60,6 +60,8 @@ def release_all_rules(ctx, ck, K, rid):
         ck.ob(rid, RA, "every-return-path-runs-the-complete-loop(no-early-return,no-fast-path)", ok)
         ck.floor(rid, "release_all-return-paths", len(rets), 1)
         return
+    if len(loops) == 1 and _drains_until_empty(ctx, ck, K, rid, ra, me, loops[0]):
+        return
     ck.ob(rid, RA, "single-loop", len(loops) == 1)
     if len(loops) == 1:
         il = ktloops.index_loop(ra, loops[0], full=True)
@@ -97,6 +99,64 @@ def release_all_rules(ctx, ck, K, rid):
     ck.ob(rid, RA, "every-return-path-runs-the-complete-loop(no-early-return,no-fast-path)", okr,
           detail=None if okr else "a return path of release_all does not run the loop over input_pressed_keys to exhaustion: the mapper keeps its input set and active mappings")
     ck.floor(rid, "release_all-return-paths", len(rets), 1)
+
+
+def _drains_until_empty(ctx, ck, K, rid, ra, me, h):
+    """release_all written as a drain of the LIVE list:
+         while let Some(&k) = self.state.input_pressed_keys.first() { events.append(&mut self.step(Released(k)).events) }
+    The loop can only be left when input_pressed_keys is empty, and what it steps is a key of that list; that every such
+    step removes the key (progress) is C01-R2, a premise of this property.  -> True if the loop has that shape (the
+    obligations are then emitted here)"""
+    paths = mir.walk_loop_only(ra, h)
+    probe = None
+    for p in paths:
+        gs = [e for e in p.events if e.kind == "guard"]
+        if not gs:
+            return False
+        a = gs[0].a
+        if not (isinstance(a, tuple) and a[0] == "variantof" and isinstance(a[1], tuple) and a[1][0] == "call" and method_name(a[1][1]) in ("first", "last")
+                and len(a[1][2]) == 1 and list_of(a[1][2][0]) == "IP" and not (isinstance(mir.strip(a[1][2][0]), tuple) and mir.strip(a[1][2][0])[0] == "clone")):
+            return False
+        probe = a[1]
+    if probe is None:
+        return False
+    k_ = T("field", T("variant", probe, "Some"), "0")
+    ok_step = ok_exit = True
+    n_cont = n_exit = 0
+    acc = None
+    for p in paths:
+        gs = [e for e in p.events if e.kind == "guard"]
+        if gs[0].b == "Some":
+            n_cont += 1
+            fx = K._one(ra, p, "x", None)
+            calls = [e for e in fx.effects if e.kind == "CALL" and e.key == MOD + "Mapper::step"]
+            apps = [e for e in fx.effects if e.kind == "APPEND"]
+            good = (p.outcome == ("backedge", h) and len(gs) == 1 and len(calls) == 1 and kt.is_event_agg(calls[0].aux[1]) and calls[0].aux[1][2] == "Released"
+                    and mir.strip(calls[0].aux[1][3][0]) == k_ and mir.strip(calls[0].aux[0]) == me
+                    and len(apps) == 1 and mir.strip(apps[0].key) == T("field", calls[0].ev.c, "events"))
+            if good:
+                acc = mir.strip(apps[0].aux)
+            ok_step = ok_step and good
+        else:
+            n_exit += 1
+            ok_exit = ok_exit and len(gs) == 1
+    ck.ob(rid, RA, "single-loop", True)
+    ck.ob(rid, RA, "iterates-every-key-of-input_pressed_keys(exit-only-by-exhaustion)", ok_exit and n_exit >= 1,
+          detail="drain form: the loop is left only when input_pressed_keys.first() is None")
+    ck.ob(rid, RA, "steps-Released(k)-for-the-visited-key", ok_step and n_cont >= 1)
+    ck.ob(rid, RA, "appends-that-step's-events", ok_step and n_cont >= 1)
+    ck.ob(rid, RA, "unconditionally", ok_step)
+    rets = [p for p in mir.walk_function(ra) if p.outcome[0] == "return"]
+    okr = bool(rets)
+    for p in rets:
+        ls = [e for e in p.events if e.kind == "loop"]
+        if len(ls) != 1 or [e for e in p.events if e.kind == "guard" and not (isinstance(e.a, tuple) and e.a[0] == "variantof")]:
+            okr = False
+        if acc is not None and mir.strip(p.outcome[1]) != acc:
+            ck.ob(rid, RA, "returns-the-accumulated-events", False)
+    ck.ob(rid, RA, "every-return-path-runs-the-complete-loop(no-early-return,no-fast-path)", okr)
+    ck.floor(rid, "release_all-return-paths", len(rets), 1)
+    return True
 
 
 def run(ctx):
